@@ -44,28 +44,46 @@ ASSUMPTIONS = [
     "not the id of one of its own groups (guaranteed by the library's configuration gate: assert_app rejects a group "
     "whose id is an argument id)",
     "sequence theorems are stated over folds of `react` (the function Parser::parse calls for every occurrence); the "
-    "connection to token lists (lexing, pending values) is covered by the correspondence run and the direct oracle",
+    "connection to token lists (lexing, pending values) is a theorem for the scanned class (C07_loop_occurrences, "
+    "C07_top_*: hypotheses are evaluated on the BUILT command build_self(with_bin c0 bin); ignore_errors off; binary "
+    "name dropped) and is covered by the correspondence run and the direct oracle outside it",
     "explicit self-override (overrides_with(self)) on an Append or Count argument is outside the property text; the "
     "theorems state what the code does (Append: earlier occurrences dropped; Count: counting continues), the oracle "
     "does not judge those arguments",
 ]
 TECHNIQUE = ("Coq proof (exact characterisation of remove_overrides; master single-step specification of react_core for "
              "every matcher state; refinement of folds of react to an abstract per-argument fold; induction over the "
-             "number of occurrences for the saturating counter) + extracted-model/implementation correspondence + "
-             "direct python oracle from the property text")
+             "number of occurrences for the saturating counter; induction over the token list with a pending-buffer "
+             "invariant showing that the token loop of Parser::parse is the fold of react over a declaratively scanned "
+             "occurrence list, composed with the post-loop phases up to parse_top) + extracted-model/implementation "
+             "correspondence + direct python oracle from the property text")
 LEVEL_TEXT = ("Machine-checked theorems (Coq 8.16, closed under the global context) about the executable model of "
-              "Parser::{react, remove_overrides, start_custom_arg, push_arg_values} and ArgMatcher/MatchedArg/FlatMap: "
+              "Parser::{parse (token loop), parse_long_arg, parse_short_arg, parse_opt_value, resolve_pending, react, "
+              "remove_overrides, start_custom_arg, push_arg_values}, the post-loop phases and ArgMatcher/MatchedArg/FlatMap: "
               "for every matcher state, after a successful occurrence the argument's entry is exactly one group "
               "(Set/SetTrue/SetFalse/Count) or the previous groups followed by the new one (Append); a repeat without "
               "self-override is ArgumentConflict and nothing else is; a Count flag given n times holds the decimal of "
               "min(n,255) for all n; flags hold true/false and Arg::_build installs the opposite default; after an "
               "occurrence of a no entry in an override relation with a (either direction) remains and all other "
-              "entries are untouched; any sequence of occurrences refines an abstract per-argument fold.  The model "
+              "entries are untouched; any sequence of occurrences refines an abstract per-argument fold.  Round 2: for every "
+              "command line made of long flags, short clusters and one-value options spelled --o=v, --o v, -ov, -o=v, -o v "
+              "(class = a declarative scanner `occurrences` succeeds; commands without allow_hyphen_values/"
+              "allow_negative_numbers arguments), in any order and for every parser state, the token loop followed by "
+              "resolve_pending EQUALS the fold of react over the scanned occurrences (errors and panic sites included), "
+              "and the closed forms are theorems about parse_top(bin :: tokens): Count = min(n,255), Append = all "
+              "occurrences in order with boundaries, Set = last occurrence / ArgumentConflict on a repeat without "
+              "self-override, SetTrue/SetFalse truth value or opposite default, override removal in both orders of "
+              "appearance, defaults only for absent arguments, and the modelled typed view (get_count = min(n,255) for all "
+              "n >= 0, get_flag = truth value / opposite default).  The model "
               "is tied to clap_builder by running the extracted model and the real crate on the same generated "
-              "commands and argument vectors on every check, and an independent python oracle (scan + fold by "
+              "commands and argument vectors on every check (the concrete lines of the proofs' non-vacuity examples are "
+              "corpus cases), and an independent python oracle (scan + fold by "
               "action) is applied to the implementation's output, including the typed getters.")
 LEVEL_NOTE = ("Trusted: Coq kernel, extraction, OCaml driver, Rust harness, generators/oracle. The link between token "
-              "lists and the sequence of react calls is differential (plus one proved token class, see docs/notes/C07.md).")
+              "lists and the sequence of react calls is proved for the scanned class (flags, clusters, one-value options "
+              "in all five spellings; see docs/notes/C07.md) and differential outside it: positionals and `--`, options "
+              "with optional/multiple values or require_equals, hyphen-value arguments, missing values, subcommand "
+              "dispatch; the typed getters are oracle-only.")
 
 chance = gen_cmd.chance
 pick = gen_cmd.pick
